@@ -186,6 +186,20 @@ def run(ctx: Ctx):
         if not any("== assumed_base" in t or "[:-7]" in t for t in texts) and "[:-7]" not in src:
             ctx.fail(cons + "#name", ta.loc(), "the base class is not matched by the request's name without the 'Request' suffix")
     no_hidden_state(ctx, "C20-R5", [ta], set())
+    for gname in ("Message", "DefinedMessage", "UndefinedMessage"):
+        gc = base.classes.get(gname)
+        pi = gc.methods.get("__post_init__") if gc else None
+        cons = f"{gname}.__post_init__:generic"
+        ctx.inst(cons, rule="C20-R2")
+        if pi is not None:
+            for n in ast.walk(pi.node):
+                if isinstance(n, (ast.Assign, ast.AugAssign)):
+                    for t in A.store_targets(n):
+                        if A.dotted(t).startswith("self.header."):
+                            ctx.fail(cons, pi.loc(n), f"the generic class {gname} overwrites "
+                                     f"`{A.dotted(t)}` on construction: the answer to a request with an "
+                                     f"unknown command code no longer bears the request's command code",
+                                     rule="C20-R2")
 
     # ---------------- R4 generate_answer helpers --------------------------------------------------
     ctx.rule("C20-R4", "_generate_answer / generate_answer: local identity, Session-Id and "
